@@ -11,9 +11,8 @@ let rec pos_of_int i = if i = 1 then XH else if i land 1 = 1 then XI (pos_of_int
 let n_of_int i = if i = 0 then N0 else Npos (pos_of_int i)
 let rec int_of_pos = function XH -> 1 | XO p -> 2 * int_of_pos p | XI p -> 2 * int_of_pos p + 1
 let int_of_n = function N0 -> 0 | Npos p -> int_of_pos p
-(* position / count argument: -1 = npos, -2 = npos - 1 (binary 1...10), otherwise the number itself *)
-let npos_minus_1 = let rec ones k = if k = 1 then XH else XI (ones (k - 1)) in Npos (XO (ones 63))
-let arg i = if i = -1 then npos else if i = -2 then npos_minus_1 else n_of_int i
+(* position / count argument: -(d+1) = npos - d (as the harness prints it), otherwise the number itself *)
+let arg i = if i = -1 then npos else if i < 0 then N.sub npos (n_of_int (-i - 1)) else n_of_int i
 let huge3 = [1 lsl 32; (1 lsl 32) + 1; -2]
 let enc_size n = if n = npos then -1 else int_of_n n
 let enc_bool b = if b then 1 else 0
@@ -42,6 +41,11 @@ let found b x = if x <> npos then b.hits <- b.hits + 1; enc_size x
 
 let positions len = List.init (len + 3) (fun i -> i) @ [-1]
 let few_positions len = [0; 1; len; -1]
+let counts len = List.init (len + 3) (fun i -> i) @ List.init (len + 4) (fun k -> -(len + 4 - k))   (* .., npos-1, npos *)
+let few_counts len = [0; 1; len; -4; -3; -2; -1]
+(* a returned view: size, offset of data() from the base, bytes (at most 40) *)
+let rec take_at_most k l = if k <= 0 then [] else match l with [] -> [] | x :: t -> x :: take_at_most (k - 1) t
+let enc_view (v : n list) off = List.length v :: off :: List.map int_of_n (take_at_most 40 v)
 let alpha5 = [0x00; 0x61; 0x62; 0x80; 0xFF]
 
 let res_size = function Ok r -> [r] | _ -> [-2]
@@ -52,23 +56,24 @@ let block_hay ?(kind = 'H') ?lh ?(ls = "-") h verbose =
   let b = { kind; h; s = []; lh; ls; verbose; hm = 0; ncalls = 0; hits = 0 } in
   let len = List.length h in
   let p = positions len in
+  let nn = counts len in
   call b [enc_size (size h); enc_size (size h); enc_bool (size h = N0)];
   List.iter (fun pos -> call b (match at_ h (arg pos) with Ok c -> [int_of_n c] | _ -> [-2])) p;
   for pos = 0 to len - 1 do call b [int_of_n (index h (arg pos))] done;
   if len > 0 then begin call b [int_of_n (front h)]; call b [int_of_n (back h)] end;
   for k = 0 to len do
-    call b (enc_str (remove_prefix h (arg k)) @ [k]);
-    call b (enc_str (remove_suffix h (arg k)))
+    call b (enc_view (remove_prefix h (arg k)) k);
+    call b (enc_view (remove_suffix h (arg k)) 0)
   done;
   call b (enc_str (to_string h));
   call b (enc_str (to_string h));
   List.iter (fun pos -> List.iter (fun k ->
-    call b (match substr h (arg pos) (arg k) with Ok v -> enc_str v | _ -> [-2])) p) p;
+    call b (match substr h (arg pos) (arg k) with Ok v -> enc_view v pos | _ -> [-2])) nn) p;
   let buf = List.init (len + 3) (fun _ -> n_of_int 0x2E) in
   List.iter (fun pos -> List.iter (fun k ->
     call b (match copy h buf (arg k) (arg pos) with
             | Ok (r, out) -> enc_size r :: enc_str out
-            | _ -> -2 :: enc_str buf)) p) p;
+            | _ -> -2 :: enc_str buf)) nn) p;
   List.iter (fun c ->
     let cn = n_of_int c in
     let cv = of_char cn in
@@ -88,9 +93,11 @@ let block_hay ?(kind = 'H') ?lh ?(ls = "-") h verbose =
             | _ -> -2 :: enc_str buf) in
   List.iter (fun g ->
     call b (match at_ h (arg g) with Ok c -> [int_of_n c] | _ -> [-2]);
-    call b (match substr h (arg g) (arg 1) with Ok v -> enc_str v | _ -> [-2]);
-    call b (match substr h (arg 0) (arg g) with Ok v -> enc_str v | _ -> [-2]);
-    do_copy g 0;
+    call b (match substr h (arg g) (arg 1) with Ok v -> enc_view v g | _ -> [-2]);
+    for pos = 0 to len do
+      call b (match substr h (arg pos) (arg g) with Ok v -> enc_view v pos | _ -> [-2]);
+      do_copy g pos
+    done;
     do_copy 1 g;
     call b [enc_size (find h (of_char (n_of_int 0x61)) (arg g))];
     call b [enc_size (rfind h (of_char (n_of_int 0x61)) (arg g))]) huge3;
@@ -124,12 +131,25 @@ let block_pair ?lh ?ls h s verbose =
     call b [enc_size (find_last_not_of h x a)] in
   List.iter (fun pos -> six s (arg pos)) p;
   List.iter (fun pos -> six pn (arg pos); six cs (arg pos)) f;
+  let n1s = if List.length s <= 1 then counts len else p in
   List.iter (fun pos1 -> List.iter (fun n1 ->
     if pos1 <> -1 && pos1 <= len || n1 = 0 || n1 = -1 then
-      call b (match compare3 h (arg pos1) (arg n1) s with Ok z -> [enc_sign z] | _ -> [-2])) p) p;
+      call b (match compare3 h (arg pos1) (arg n1) s with Ok z -> [enc_sign z] | _ -> [-2])) n1s) p;
+  for k = 0 to List.length s - 1 do
+    let pk = of_ptr_n s (arg k) in
+    List.iter (fun pos ->
+      let a = arg pos in
+      call b [enc_size (find h pk a)];
+      call b [enc_size (rfind h pk a)];
+      call b [enc_size (find_first_of h pk a)];
+      call b [enc_size (find_last_of h pk a)];
+      call b [enc_size (find_first_not_of h pk a)];
+      call b [enc_size (find_last_not_of h pk a)];
+      call b (match compare3 h (arg 0) (arg (-1)) pk with Ok z -> [enc_sign z] | _ -> [-2])) [0; -1]
+  done;
   List.iter (fun pos1 -> List.iter (fun n1 ->
     call b (match compare3 h (arg pos1) (arg n1) cs with Ok z -> [enc_sign z] | _ -> [-2]);
-    call b (match compare3 h (arg pos1) (arg n1) pn with Ok z -> [enc_sign z] | _ -> [-2])) f) f;
+    call b (match compare3 h (arg pos1) (arg n1) pn with Ok z -> [enc_sign z] | _ -> [-2])) (few_counts len)) f;
   List.iter (fun g ->
     let a = arg g in
     call b [enc_size (find h s a)];
@@ -146,9 +166,10 @@ let block_cmp5 h s verbose =
   let b = { kind = 'C'; h; s; lh = hex h; ls = hex s; verbose; hm = 0; ncalls = 0; hits = 0 } in
   let lh = List.length h and ls = List.length s in
   let p = positions lh and q = positions ls in
+  let n1s = counts lh and n2s = counts ls in
   List.iter (fun pos1 -> List.iter (fun n1 -> List.iter (fun pos2 -> List.iter (fun n2 ->
     if (pos1 <> -1 && pos1 <= lh || n1 = 0 || n1 = -1) && (pos2 <> -1 && pos2 <= ls || n2 = 0 || n2 = -1) then
-      call b (match compare5 h (arg pos1) (arg n1) s (arg pos2) (arg n2) with Ok z -> [enc_sign z] | _ -> [-2])) q) q) p) p;
+      call b (match compare5 h (arg pos1) (arg n1) s (arg pos2) (arg n2) with Ok z -> [enc_sign z] | _ -> [-2])) n2s) q) n1s) p;
   finish b
 
 (* ---------------------------------------------------------------- blocks M and A: views into one buffer *)
@@ -189,7 +210,7 @@ let block_alias buf o1 l1 o2 l2 verbose =
     call b [enc_size (find h cs (arg pos))];
     call b [enc_size (rfind h cs (arg pos))]) f;
   List.iter (fun pos1 -> List.iter (fun n1 ->
-    call b (match compare3 h (arg pos1) (arg n1) s with Ok z -> [enc_sign z] | _ -> [-2])) f) f;
+    call b (match compare3 h (arg pos1) (arg n1) s with Ok z -> [enc_sign z] | _ -> [-2])) (few_counts len)) f;
   List.iter (fun pos1 -> List.iter (fun n1 -> List.iter (fun pos2 -> List.iter (fun n2 ->
     call b (match compare5 h (arg pos1) (arg n1) s (arg pos2) (arg n2) with Ok z -> [enc_sign z] | _ -> [-2]))
     [1; -1]) [0; 1]) [1; -1]) [0; 1];
